@@ -27,6 +27,9 @@ CHECKS = {
  "C14": dict(technique="CrossHair symbolic execution of model/mark.py and the mark parts of model/schema.py with a lazily-symbolic exclusion relation (solver booleans decided when excludes() consults them), symbolic attribute ints, membership and permission bits",
              text="For an arbitrary exclusion relation over 3 (thorough 4) mark types chosen by the solver along each path, every canonical set of the mark instances and every added/removed mark, add_to_set/remove_from_set/is_in_set/same_set/set_from/allowed_marks/allows_marks equal the reference mark-set algebra and results stay canonical; sequences of three additions and a removal from the empty set are followed step by step; the compilation of excludes/marks spec strings ('_', '', absent, names, groups) by Schema() yields exactly the denoted relation.",
              ref="4/C14"),
+ "C02": dict(technique="CrossHair symbolic execution of Node.slice/cut/replace (model/replace.py, fragment.py) with both positions and the slice choice / a second document's cut positions symbolic, against the token-splice reference",
+             text="For every catalogue document and every position pair the solver explores every path of slice/cut (out-of-range must raise) and of replace with every catalogue slice (closed, open, deep, astral) and with slices cut at two symbolic positions of a second document; a returned document has exactly the tokens old[:from]+slice+old[to:], the predicted size, merged text, and is valid under the spec-derived validator; re-inserting a cut slice must succeed and give an equal document; anything but ReplaceError is a violation.",
+             ref="4/C02"),
 }
 CHECKS_END = None
 
